@@ -45,10 +45,36 @@ def make_pool():
         for _ in range(2):
             pool.append({"uid": uid, "kind": "VCARD", "cid": cid})
             cid += 1
+    # UIDs that collide with the file name derived from another UID in a whole-collection upload
+    # ("u1" and "u1.ics" both want the name u1.ics; the second one falls back to the hash of its UID)
+    for uid, kind in [("u1.ics", "VEVENT"), ("u2.ICS", "VTODO"), ("u5.vcf", "VCARD")]:
+        pool.append({"uid": uid, "kind": kind, "cid": cid})
+        cid += 1
     return pool
 
 
 POOL = make_pool()
+
+
+def _hash_names():
+    from radicale import item as radicale_item
+    t = {}
+    for o in POOL:
+        t[radicale_item.get_etag(o["uid"]).strip('"')] = o["uid"]
+    return t
+
+
+_HASH_NAMES = {}
+
+
+def canon_href(h):
+    """file names derived from the hash of a UID -> the model's symbolic name"""
+    if not _HASH_NAMES:
+        _HASH_NAMES.update(_hash_names())
+    for suffix in (".ics", ".vcf"):
+        if h.endswith(suffix) and h[:-len(suffix)] in _HASH_NAMES:
+            return "#H(%s)%s" % (_HASH_NAMES[h[:-len(suffix)]], suffix)
+    return h
 
 PROPFIND_BODY = ('<?xml version="1.0"?><D:propfind xmlns:D="DAV:"><D:prop><D:resourcetype/><D:getetag/><D:displayname/>'
                  '</D:prop></D:propfind>')
@@ -188,7 +214,7 @@ class Sim:
             ms, order, _ = parse_multistatus(text)
             for href in order:
                 props = ms[href]
-                comps = [c for c in href.split("/") if c]
+                comps = [canon_href(c) for c in href.split("/") if c]
                 if isinstance(props, int):
                     obs["entries"].append({"type": "missing", "path": comps})
                     continue
@@ -224,7 +250,8 @@ class Sim:
             comps = [c for c in path.split("/") if c]
             props = sorted((k, v) for k, v in e["props"].items() if k != "tag")
             out.append({"path": comps, "tag": e["tag"], "props": [list(x) for x in props],
-                        "items": [{"href": h, "uid": e["items"][h]["uid"], "etag_raw": e["items"][h]["etag"]} for h in sorted(e["items"])]})
+                        "items": sorted([{"href": canon_href(h), "uid": e["items"][h]["uid"], "etag_raw": e["items"][h]["etag"]} for h in e["items"]],
+                                         key=lambda i: i["href"])})
         return out
 
     # ---- one step on both sides --------------------------------------------------------------------------
@@ -343,11 +370,33 @@ def gen_request(rng, sim, known_etags):
     if k < 0.54:
         # whole-collection PUT
         r = {"method": "PUT", "path": coll, "as_collection": True}
-        if rng.random() < 0.7:
+        q = rng.random()
+        if q < 0.1:
+            # two UIDs that want the same file name (X and X.ics / X.vcf): both objects must be stored
+            if rng.random() < 0.6:
+                base, ext = rng.choice([("u1", "u1.ics"), ("u2", "u2.ICS")])
+                sel = [rng.choice([o for o in POOL if o["uid"] == base and o["kind"] != "VCARD"]),
+                       rng.choice([o for o in POOL if o["uid"] == ext])]
+                if rng.random() < 0.5:
+                    sel.append(rng.choice([o for o in POOL if o["uid"] in ("u3", "u4") and o["kind"] != "VCARD"]))
+                rng.shuffle(sel)
+                r.update(body="cal", objs=sel)
+            else:
+                sel = [rng.choice([o for o in POOL if o["uid"] == "u5" and o["kind"] == "VCARD"]),
+                       rng.choice([o for o in POOL if o["uid"] == "u5.vcf"])]
+                rng.shuffle(sel)
+                r.update(body="cards", objs=sel)
+        elif q < 0.22:
+            # components sharing a UID that are not adjacent in the upload (A, B, A'): the grouping by UID must
+            # not depend on their order; also one UID with two component types (VEVENT X, VEVENT Y, VTODO X)
+            ua, ub = rng.sample(["u1", "u2", "u3", "u4"], 2)
+            a = [o for o in POOL if o["uid"] == ua and o["kind"] != "VCARD"]
+            b = [o for o in POOL if o["uid"] == ub and o["kind"] != "VCARD"]
+            first = rng.choice(a)
+            second = rng.choice([o for o in a if o is not first and (o["kind"] == first["kind"] or rng.random() < 0.5)] or a)
+            r.update(body="cal", objs=[first] + [rng.choice(b) for _ in range(rng.randint(1, 2))] + [second])
+        elif q < 0.7:
             sel = objs(rng.randint(0, 3), ["VEVENT", "VTODO", "VJOURNAL"])
-            # one component type per UID (mixed types per UID are finding F14)
-            seen = {}
-            sel = [o for o in sel if seen.setdefault(o["uid"], o["kind"]) == o["kind"]]
             r.update(body="cal", objs=sel)
         else:
             sel = objs(rng.randint(1, 3), ["VCARD"])
